@@ -114,7 +114,25 @@ fn gen_q(rng: &mut Rng, depth: u32, ctes: &mut Vec<String>) -> String {
     name
 }
 
+/// two aggregated sub-queries of different depths: one under a chain of projections and joined to a protected table, the other a plain
+/// GROUP BY; several acceptable derivations (each sub-query kept privacy-unit-preserving or published with DP) whose scores are not monotone
+/// in the order of enumeration
+fn gen_two_depths(rng: &mut Rng) -> String {
+    let n = 1 + rng.below(4);
+    let mut ctes = vec!["q0 AS (SELECT user_id AS k, sum(amount) AS v FROM orders GROUP BY user_id)".to_string()];
+    for i in 0..n { ctes.push(format!("q{} AS (SELECT k, v + {} AS v FROM q{})", i + 1, rng.range(1, 3), i)); }
+    let deep = format!("q{n}");
+    let (t, kc, vc) = *rng.pick(&[("users", "id", "income"), ("orders", "user_id", "amount")]);
+    ctes.push(format!("qj AS (SELECT {t}.{kc} AS k, {t}.{vc} + {deep}.v AS v FROM {t} JOIN {deep} ON {t}.{kc} = {deep}.k)"));
+    let m = rng.below(3);
+    ctes.push(format!("g0 AS (SELECT {} AS k, {} AS v FROM {} GROUP BY {})", if rng.chance(1, 2) { "id" } else { "age" }, *rng.pick(&["count(age)", "sum(income)", "avg(income)"]), "users", "k").replace("GROUP BY k", if ctes.len() % 2 == 0 { "GROUP BY id" } else { "GROUP BY id" }).replace("age AS k", "id AS k"));
+    for i in 0..m { ctes.push(format!("g{} AS (SELECT k, v * 2 AS v FROM g{})", i + 1, i)); }
+    let (a, b) = if rng.chance(1, 2) { ("qj".to_string(), format!("g{m}")) } else { (format!("g{m}"), "qj".to_string()) };
+    format!("WITH {} SELECT {a}.k AS k, {a}.v + {b}.v AS v FROM {a} JOIN {b} ON {a}.k = {b}.k", ctes.join(", "))
+}
+
 pub fn gen(rng: &mut Rng, k: usize, _tier: &str) -> J {
+    if k % 10 == 9 { return json!({"sql": gen_two_depths(rng), "synthetic": false, "strategy": "hard", "catalog": 0}); }
     let mut ctes = vec![];
     let depth = 1 + (k % 3) as u32;
     let root = gen_q(rng, depth, &mut ctes);
